@@ -1,7 +1,7 @@
 from core import Unit as U
 HASH = ["secp256k1_sha256_write", "secp256k1_sha256_finalize"]
 VORACLES = ["secp256k1_ge_set_xquad", "secp256k1_fe_impl_is_square_var", "secp256k1_gej_add_ge_var",
-            "secp256k1_pedersen_ecmult_small", "secp256k1_borromean_verify"]
+            "secp256k1_pedersen_ecmult_small", "secp256k1_borromean_verify"]   # call-site stubs (assumed_rangeproof.h part B)
 VLOOPS = ["secp256k1_rangeproof_verify_impl.0:33", "secp256k1_rangeproof_verify_impl.1:33", "secp256k1_rangeproof_verify_impl.2:33",
           "secp256k1_rangeproof_verify_impl.3:129"]
 UNITS = [
@@ -10,13 +10,13 @@ UNITS = [
     U("C10.leaf_fe_set_b32_limit", ["C10", "C07"], "harness/C10/leaf.c", "h_leaf_fe_set_b32_limit", enforce=["secp256k1_fe_impl_set_b32_limit"],
       timeout=300, min_obl=10, note="proved leaf contract: ret = (be256 < p), r = be256 when ret, limbs in range always"),
     U("C10.verify_gates", ["C10", "C07"], "harness/C10/verify_impl.c", "h_verify_gates",
-      replace=HASH + VORACLES + ["secp256k1_rangeproof_pub_expand"], assumed=VORACLES,
+      replace=["secp256k1_rangeproof_pub_expand"], assumed=VORACLES,
       functions=["secp256k1_rangeproof_verify_impl", "secp256k1_rangeproof_getheader_impl", "secp256k1_ge_neg", "secp256k1_gej_neg", "secp256k1_gej_set_ge"],
       timeout=2400, min_obl=100, unwind=34, unwindset=VLOOPS,
       closed_by="full unwinding to the code-enforced constants (32 rings, 128 ring members); unwinding assertions prove the bounds",
       note="nonce == NULL; all proof byte strings of length <= 6000; pub_expand by call-site contract; scalar/field byte readers by proved leaf contracts"),
     U("C10.verify_binding", ["C10"], "harness/C10/verify_impl.c", "h_verify_binding",
-      replace=HASH + VORACLES + ["secp256k1_rangeproof_pub_expand"], assumed=VORACLES,
+      replace=["secp256k1_rangeproof_pub_expand"], assumed=VORACLES,
       functions=["secp256k1_rangeproof_verify_impl", "secp256k1_rangeproof_serialize_point"],
       timeout=2400, min_obl=100, unwind=34, unwindset=VLOOPS,
       closed_by="full unwinding to the code-enforced constants (32 rings, 128 ring members)",
